@@ -717,7 +717,14 @@ func checkExchange(r *Run, p *Prog) {
 				if !ok || f.Name() != "Merge" || len(call.Args) != 2 {
 					return false
 				}
-				s, ok := ast.Unparen(call.Args[1]).(*ast.SelectorExpr)
+				arg := ast.Unparen(call.Args[1])
+				// through a local with a single definition ("peerNodes := msg.Nodes")
+				if o := objOf(fn, arg); o != nil && o != param {
+					if rhs, _, ok := varDefinedBy(fn, o); ok && rhs != nil {
+						arg = ast.Unparen(rhs)
+					}
+				}
+				s, ok := arg.(*ast.SelectorExpr)
 				return ok && s.Sel.Name == "Nodes" && objOf(fn, s.X) == param
 			})
 		}
